@@ -166,6 +166,27 @@ package processor
 //@   ensures [string-order] implies(uf("rankOf", dTypeRank, valueA, op) == RANK_STRING && uf("rankOf", dTypeRank, valueB, op) == RANK_STRING && typedKey(valueA, op) && typedKey(valueB, op), (result == EQUAL) == (uf("strOf", string, valueA) == uf("strOf", string, valueB)) && (result == dirOf(LESS, asc)) == (uf("strOf", string, valueA) < uf("strOf", string, valueB)))
 //@ end
 
+// C05/C06: the merge comparator (cross-batch merge in sortProcessor.Process and
+// the k-way merge of parallel sort chains) must be the SAME order as the
+// in-batch comparator less(): both hand compareValues the value of record a
+// first, the value of record b second, and the sort element's own direction
+// and operation, and report "a before b" exactly when the first key that
+// differs says LESS.  (compareValues puts missing values last BEFORE it applies
+// the direction, so "descending = ascending with the operands swapped" is a
+// different order.)
+//@ func (*sortProcessor).lessDirectRead
+//@   props C05 C06
+//@   assumecalleerequires
+//@   site call compareValues #1:
+//@     assert [first-record-first-with-the-elements-own-direction] arg0 == valA && arg1 == valB && arg2 == element.SortByAsc && arg3 == element.Op
+//@ end
+//@ func (*sortProcessor).less
+//@   props C05 C06
+//@   assumecalleerequires
+//@   site call compareValues #1:
+//@     assert [the-elements-own-direction] arg2 == element.SortByAsc && arg3 == element.Op
+//@ end
+
 // ---- C06 (one or several upstream streams): consumers skip a stream that
 // reports IsExhausted, and a k-way merge parks the unconsumed tail of an input
 // with SetUnusedDataFromLastFetch.  Representation invariant of CachedStream:
